@@ -265,3 +265,17 @@ Proof.
   destruct (WF_move_in t n target _ t' s tch cur Wt M Gn Gc Gp U) as (W' & P).
   apply (WFw_put w ti t); auto. intros m Hm. left. now apply (Permutation_in _ (Permutation_sym P)).
 Qed.
+
+(* ---- metadata ---- *)
+Theorem WFw_op_meta w ti n o : WFw w -> WFw (snd (op_meta w ti n o)).
+Proof.
+  intros H. unfold op_meta. destruct (get_tree w ti) as [t|] eqn:Gt; [|exact H].
+  destruct (live t n); [|exact H]. cbn [snd]. unfold put_tree. assert (Wt := WFw_tree w ti t H Gt).
+  destruct (node_loc n (forest_of t)) as [[[q0 i] l]|] eqn:E.
+  - destruct (set_info_at_spec n (fun i0 => set_meta_i (apply_meta o (i_meta i0)) i0) _ q0 i l E) as (a & s & b & -> & _ & R & G & ->).
+    rewrite <- R. destruct (WF_relabel_same t q0 a s b (set_meta_i (apply_meta o (i_meta (rinfo s))) (rinfo s)) Wt G eq_refl) as (W' & Ei).
+    apply (WFw_put w ti t); [exact H|exact Gt|exact W'|lia|].
+    intros m Hm. left. cbn [forest_of set_forest] in Hm. now rewrite Ei in Hm.
+  - rewrite set_info_at_none by assumption. replace (set_forest t (forest_of t)) with t by (now destruct t).
+    apply (WFw_put w ti t); auto.
+Qed.
